@@ -189,6 +189,13 @@ class C10(CFGProp):
             got = self._res(ctx, "C10.reverse", ctx.call(a.reverse), rev)
             self._same(ctx, "C10.reverse.operator_form", ctx.call(lambda: ~a), got)
             ctx.expect(self.snap(a) == sa, "C10.unary.operands_unchanged")
+            if not ca[2]:
+                # the grammar without productions also exists as CFG() (no start symbol): what intersection() returns
+                # for an empty language
+                bare = m.CFG()
+                self._res(ctx, "C10.closure", ctx.call(bare.get_closure), {()}, operand="CFG()")
+                self._res(ctx, "C10.positive_closure", ctx.call(bare.get_positive_closure), set(), operand="CFG()")
+                self._res(ctx, "C10.reverse", ctx.call(bare.reverse), set(), operand="CFG()")
             return
         same = case[1] == case[3] and case[2] == case[4]
         if same:
@@ -204,6 +211,12 @@ class C10(CFGProp):
             self._same(ctx, "C10.union.operator_form", ctx.call(lambda: a | b), got)
             got = self._res(ctx, "C10.concatenate", ctx.call(a.concatenate, b), cat(la, lb))
             self._same(ctx, "C10.concatenate.operator_form", ctx.call(lambda: a + b), got)
+            if not cb[2]:
+                bare = m.CFG()      # the empty grammar as the library itself hands it out (no start symbol)
+                self._res(ctx, "C10.union", ctx.call(a.union, bare), la, operand="CFG() right")
+                self._res(ctx, "C10.union", ctx.call(bare.union, a), la, operand="CFG() left")
+                self._res(ctx, "C10.concatenate", ctx.call(a.concatenate, bare), set(), operand="CFG() right")
+                self._res(ctx, "C10.concatenate", ctx.call(bare.concatenate, a), set(), operand="CFG() left")
         else:
             mode = case[5]
             ra = self.ref_gram(ca, scheme)
